@@ -58,7 +58,7 @@ def run_async(graph, values, runner=None, **kw) -> Outcome:
         with warnings.catch_warnings():
             warnings.simplefilter("ignore")
             res = asyncio.run(go())
-    except Exception as e:  # noqa: BLE001
+    except (Exception, asyncio.CancelledError) as e:  # noqa: BLE001 - a cancellation leaking out of run() is an outcome to judge
         return Outcome("raised", None, e)
     return _outcome(res)
 
